@@ -129,6 +129,31 @@ thread_local! {
 /// Install (Some) or remove (None) the simulated wall clock of this thread, in ns since the epoch.
 pub fn set_clock_ns(ns: Option<i128>) {
     FAKE_CLOCK_NS.with(|c| c.set(ns));
+    WORK_TICKS_NS.with(|c| c.set(0));
+}
+
+thread_local! {
+    /// "time flows with work": ns added to the simulated wall clock per heap allocation made inside a library call
+    /// proper (0 = the clock stands still during a call). Allocation counts are a deterministic measure of progress
+    /// through a computation, so a clock read at the START of a call and one AFTER the work see different times.
+    static WORK_TICK_NS: Cell<u64> = const { Cell::new(0) };
+    static WORK_TICKS_NS: Cell<u64> = const { Cell::new(0) };
+}
+pub fn set_work_tick_ns(ns: u64) {
+    WORK_TICK_NS.with(|c| c.set(ns));
+    WORK_TICKS_NS.with(|c| c.set(0));
+}
+pub fn work_tick_ns() -> u64 {
+    WORK_TICK_NS.with(|c| c.get())
+}
+/// called by the binary's global allocator on every allocation
+#[inline]
+pub fn on_alloc() {
+    if let Ok(t) = WORK_TICK_NS.try_with(|c| c.get()) {
+        if t != 0 && simtypes::working() {
+            let _ = WORK_TICKS_NS.try_with(|c| c.set(c.get().saturating_add(t)));
+        }
+    }
 }
 /// Monotonic time seen by code under simulation = per-thread base + simulated time of the current run.
 pub fn set_mono_ns(sim_now_ns: u64) {
@@ -231,6 +256,7 @@ pub unsafe extern "C" fn clock_gettime(clk: i32, ts: *mut Timespec) -> i32 {
         if let Ok(Some(ns)) = FAKE_CLOCK_NS.try_with(|c| c.get()) {
             if clk == CLOCK_REALTIME || clk == CLOCK_REALTIME_COARSE {
                 let _ = CLOCK_READS.try_with(|c| c.set(c.get() + 1));
+                let ns = ns + WORK_TICKS_NS.try_with(|c| c.get()).unwrap_or(0) as i128;
                 let sec = ns.div_euclid(1_000_000_000);
                 let nsec = ns.rem_euclid(1_000_000_000);
                 (*ts).tv_sec = sec as i64;
